@@ -1,5 +1,5 @@
 """C16 bounded stand-in: MinErrorFlow (real HiGHS) on every small weighted digraph vs an exact, certified L1-minimum
-flow-correction oracle (z3 over one Int/Real variable per edge / node; optimum certified by a second `objective < v` unsat query).
+flow-correction oracle (z3 over one Int/Real variable per edge / node; optimum found by bisection over satisfiability queries and certified by a final `objective < v` unsat query).
 
 Reading of the statement used here (DESIGN 3.0 and the class docstring):
   * conservation is demanded at every node with both in- and out-edges that is not an additional start/end ("exempt");
@@ -210,25 +210,46 @@ def l1_opt(case):
         for v in sv:
             terms.append(z3.RealVal(str(_F(case["lam"]))) * (z3.ToReal(sv[v]) if case["wt"] == "int" else sv[v]))
     obj = z3.Sum(terms)
-    o = z3.Optimize()
-    o.add(*cons)
-    o.minimize(obj)
+    # z3.Optimize is not used: it sporadically does not return on these tiny integer programs (observed: minutes inside Z3_optimize_check).
+    # Bisection with plain satisfiability queries, then the certifying query `objective < v` must be unsat.
     res = None
-    if o.check() == z3.sat:
-        v = _val(o.model().eval(obj, model_completion=True))
-        s = z3.Solver()
-        s.add(*cons)
-        for _ in range(50):
-            s.push()
-            s.add(obj < z3.RealVal(str(v)))
-            r = s.check()
-            if r == z3.unsat:
-                res = v
+    s = z3.Solver()
+    s.set("timeout", 5000)
+    s.add(*cons)
+
+    def query(bound, strict):
+        s.push()
+        s.add(obj < z3.RealVal(str(bound)) if strict else obj <= z3.RealVal(str(bound)))
+        r = s.check()
+        v = _val(s.model().eval(obj, model_completion=True)) if r == z3.sat else None
+        s.pop()
+        return r, v
+    if s.check() == z3.sat:
+        hi = _val(s.model().eval(obj, model_completion=True))      # some solution attains hi
+        lo = Fraction(0)                                           # no solution has objective < lo
+        for _ in range(60):
+            if hi - lo <= Fraction(1, 16):
                 break
-            if r != z3.sat:
+            mid = (lo + hi) / 2
+            r, v = query(mid, True)
+            if r == z3.sat:
+                hi = v
+            elif r == z3.unsat:
+                lo = mid
+            else:
                 break
-            v = _val(s.model().eval(obj, model_completion=True))
-            s.pop()
+        # candidate optima: the grid points (all data are multiples of 1/2, scale factors of 1/2) in [lo, hi] and hi itself;
+        # a candidate c is accepted only with both certificates: `objective <= c` sat and `objective < c` unsat
+        g = Fraction(1, 8)
+        cands = sorted({g * k for k in range(int(lo / g), int(hi / g) + 2) if lo <= g * k <= hi} | {hi})
+        for c in cands:
+            r1, _v = query(c, False)
+            if r1 != z3.sat:
+                continue
+            r2, _v = query(c, True)
+            if r2 == z3.unsat:
+                res = c
+            break
     _ocache[key] = res
     return res
 
@@ -245,6 +266,7 @@ def _node_flow_exists(G, E, src, snk, xv, exempt_free, tol):
     """node-weighted flow test: do edge values y>=0 (and values >=0 for nodes without one) exist with  in(v)+src == x_v == out(v)+snk  up to tol?"""
     import z3
     s = z3.Solver()
+    s.set("timeout", 5000)
     ye = {e: z3.Real("y%d" % i) for i, e in enumerate(E)}
     extra = {}
     for i, v in enumerate(G):
@@ -268,7 +290,8 @@ def _node_flow_exists(G, E, src, snk, xv, exempt_free, tol):
         if v in exempt_free:
             continue
         s.add(inn - x <= tt, x - inn <= tt, out - x <= tt, x - out <= tt)
-    return s.check() == z3.sat
+    r = s.check()
+    return None if r == z3.unknown else r == z3.sat
 
 
 # ---------------------------------------------------------------------------------------------
@@ -309,12 +332,25 @@ def check(case):
               elements_to_ignore=ignore, error_scaling=scaling)
     if case["starts"] or case["ends"]:
         kw.update(additional_starts=list(case["starts"]), additional_ends=list(case["ends"]))
-    m = fp.MinErrorFlow(inp, **kw)
-    ok = m.solve()
-    if not ok or not m.is_solved():
-        return _fail("MinErrorFlow unsolved on a valid weighted digraph", "solve() = %s, is_solved() = %s on %s" % (ok, m.is_solved(), desc))
-    sol = m.get_solution()
-    H = sol["graph"]
+    try:
+        m = fp.MinErrorFlow(inp, **kw)
+        ok = m.solve()
+        if not ok or not m.is_solved():
+            # decidable attribution: HiGHS' MIP presolve sometimes reports kInfeasible on a feasible few-values model
+            # (the same model is kOptimal with presolve off, and z3 finds the captured MILP satisfiable): a solver defect, not the library's
+            suffix = ""
+            try:
+                m2 = fp.MinErrorFlow(inp.copy(), **dict(kw, solver_options={"presolve": "off"}))
+                if m2.solve() and m2.is_solved() and m.solver.get_model_status() == "kInfeasible":
+                    suffix = " [HiGHS presolve reports kInfeasible; solved with presolve off]"
+            except Exception:
+                pass
+            return _fail("MinErrorFlow unsolved on a valid weighted digraph" + suffix, "solve() = %s, is_solved() = %s on %s" % (ok, m.is_solved(), desc))
+        sol = m.get_solution()
+        H = sol["graph"]
+    except Exception as e:
+        return _fail("MinErrorFlow raises on a valid weighted digraph" + (" (node-weighted, few-values stage)" if kind == "node" and case["eps"] else ""),
+                     "%s: %s on %s" % (type(e).__name__, e, desc))
     if m.get_corrected_graph() is not H and not nx.utils.graphs_equal(m.get_corrected_graph(), H):
         return _fail("get_corrected_graph differs from get_solution()['graph']", desc)
     # ---- same graph
@@ -350,7 +386,10 @@ def check(case):
                 return _fail("corrected values violate flow conservation at an inner node", "node %s: in %s out %s; %s" % (v, a, b, desc), got=str(got))
     else:
         tol = 0 if wt is int else TOL
-        if not _node_flow_exists(G, E, {v for v in G if G.in_degree(v) == 0}, {v for v in G if G.out_degree(v) == 0}, got, exempt, tol):
+        ex = _node_flow_exists(G, E, {v for v in G if G.in_degree(v) == 0}, {v for v in G if G.out_degree(v) == 0}, got, exempt, tol)
+        if ex is None:
+            return dict(ok=None, nontrivial=False, what="node-flow existence query undecided on " + desc)
+        if not ex:
             return _fail("corrected node values are not a node-weighted flow", "values %s; %s" % (got, desc), got=str(got))
     # ---- recomputed change
     S = sum((fac * abs(_F(val[k]) - _F(got[k])) for k, fac in counted.items()), Fraction(0))
@@ -362,11 +401,13 @@ def check(case):
 
     def near(a, b):
         return abs(float(a) - float(b)) <= TOL * (1 + abs(float(b)))
+    # the clauses on reported numbers are evaluated last, so that they never mask an optimality / budget violation
+    late = None
     if not near(sol["error"], U):
-        return _fail("reported error differs from the recomputed absolute change" + (" (few-values stage)" if eps else ""),
+        late = _fail("reported error differs from the recomputed absolute change" + (" (few-values stage)" if eps else ""),
                      "reported %r recomputed %s; %s; corrected %s" % (sol["error"], float(U), desc, got))
-    if m.get_objective_value() != sol["error"]:
-        return _fail("get_objective_value differs from the reported error", desc)
+    elif m.get_objective_value() != sol["error"]:
+        late = _fail("get_objective_value differs from the reported error", desc)
     if lam:
         # flow entering at the sources = what leaves them (no node is both start and end in these cases)
         if kind == "edge":
@@ -379,19 +420,19 @@ def check(case):
         if eps is None and not near(sol["objective_value"], opt):
             return _fail("sparsity objective is not the minimum of scaled change + lambda * source outflow",
                          "reported %r oracle %s; %s; corrected %s" % (sol["objective_value"], float(opt), desc, got))
-        return dict(ok=True, nontrivial=opt > 0, detail=dict(opt=str(opt), S=str(S)))
+        return late or dict(ok=True, nontrivial=opt > 0, detail=dict(opt=str(opt), S=str(S)))
     if eps is None:
-        if not near(sol["objective_value"], S):
-            return _fail("reported objective differs from the recomputed scaled change", "reported %r recomputed %s; %s" % (sol["objective_value"], float(S), desc))
         if float(S) > float(opt) + TOL * (1 + float(opt)):
             return _fail("corrected flow is not a closest flow", "change %s, oracle optimum %s; %s; corrected %s" % (float(S), float(opt), desc, got), opt=str(opt))
+        if late is None and not near(sol["objective_value"], S):
+            late = _fail("reported objective differs from the recomputed scaled change", "reported %r recomputed %s; %s" % (sol["objective_value"], float(S), desc))
     else:
         if float(S) > (1 + eps) * float(opt) + TOL * (1 + float(opt)):
             return _fail("few-values result exceeds (1+eps) times the optimum", "change %s, oracle optimum %s; %s; corrected %s" % (float(S), float(opt), desc, got), opt=str(opt))
     if float(S) < float(opt) - TOL * (1 + float(opt)):
         # a feasible flow cannot beat a certified optimum: the result breaks a clause of the documented model the harness did not test (or the harness is wrong)
         return dict(ok=None, nontrivial=False, what="result beats the certified optimum (%s < %s) - harness/oracle to be inspected: %s" % (float(S), float(opt), desc))
-    return dict(ok=True, nontrivial=opt > 0, detail=dict(opt=str(opt), S=str(S), distinct=len(set(x for x in got.values() if x is not None))))
+    return late or dict(ok=True, nontrivial=opt > 0, detail=dict(opt=str(opt), S=str(S), distinct=len(set(x for x in got.values() if x is not None))))
 
 
 def run(tier="quick", seed=0, chunk=0, nchunks=1):
@@ -401,6 +442,6 @@ def run(tier="quick", seed=0, chunk=0, nchunks=1):
                           "(all n<=2, sampled n=3; thorough adds sampled n=4), no source/sink required; 2 (thorough 4) pseudo-random weightings from {0,1,2,3,5} "
                           "(x0.5 for float) per topology x both weight types; per topology a rotating subset of: ignore lists of size 1-2 (one ignored edge without "
                           "attribute), error scaling {0,0.5,1}, one additional start/end (DAG), eps in {0.25,1}, lambda in {0.5,2} (DAG), node-weighted variants "
-                          "(missing attribute, ignore, scaling, starts/ends, eps, lambda); oracle = z3 Optimize certified by `objective < v` unsat; "
+                          "(missing attribute, ignore, scaling, starts/ends, eps, lambda); oracle = z3 bisection certified by `objective < v` unsat; "
                           "non-trivial = certified optimum > 0 (the input is not already a flow)",
                      bounds="n<=4 DAG / n<=3 cyclic (quick), values<=5, |ignore|<=2")
